@@ -16,4 +16,5 @@ CONSTANTS
   FixDeriveGuards = FALSE
   FixLateTrack = FALSE
   FixDeleteOnAccept = FALSE
+  FixStoreOnAccept = FALSE
 INVARIANTS Listed
